@@ -211,10 +211,38 @@ def check_history(inputs, book):
         book.ev(grp, False, f"C02/{grp}/{tag}", CLAUSES[tag], f"[{inputs.get('label')}] raised: " + A.last_tb_line(), inputs)
 
 
+def check_exact_limit(seed, book, n_rep):
+    """cumsum_biggest_until with a limit that is EXACTLY the content of the k densest cells (binary fractions, so the
+    sums are exact): those k cells are marked (content <= limit), the returned value is the k-th largest"""
+    from virocon import HighestDensityContour
+    rng = np.random.default_rng(seed)
+    for rep in range(n_rep):
+        shape = [(9,), (4, 5), (3, 2, 4)][rep % 3]
+        a = rng.integers(1, 200, size=int(np.prod(shape))).astype(float) / 4096.0   # exact in binary
+        a = a.reshape(shape)
+        srt = np.sort(a.ravel())[::-1]
+        k = int(rng.integers(1, a.size))
+        if srt[k - 1] == srt[k]:
+            continue  # a tie at the cut: which of the tied cells is taken is not specified
+        limit = float(np.sum(srt[:k]))   # exact
+        inputs = {"label": "exact-limit", "array": a.tolist(), "limit": limit, "k": k}
+        try:
+            with warnings.catch_warnings():
+                warnings.simplefilter("ignore")
+                marks, last = HighestDensityContour.cumsum_biggest_until(a.copy(), limit)
+            marks = np.asarray(marks)
+            ok = marks.shape == a.shape and int((marks == 1).sum()) == k and bool(np.all(a[marks == 1] >= srt[k - 1])) and float(last) == float(srt[k - 1])
+            book.ev("fn", ok, "C02/fn/tight", CLAUSES["tight"] + " (limit equal to the content of the k densest cells)",
+                    f"limit = sum of the {k} largest of {a.size} cells: {int((marks == 1).sum())} cells marked, returned value {float(last)!r}, k-th largest {float(srt[k - 1])!r}", inputs)
+        except Exception:
+            book.ev("fn", False, "C02/fn/tight", CLAUSES["tight"], "raised: " + A.last_tb_line(), inputs)
+
+
 def run(tier, seed):
     t0 = time.time()
     book = A.Book()
     scen = A.hdc_gen_scenarios(tier, seed, "C02")
+    check_exact_limit(seed, book, 60 if tier == "quick" else 2000)
     for sc in scen:
         check(sc, book)
     n_hist = 0
@@ -245,5 +273,19 @@ def run(tier, seed):
 
 def replay(doc):
     book = A.Book()
-    check(doc["inputs"], book)
+    inp = doc["inputs"]
+    if inp.get("label") == "exact-limit":
+        from virocon import HighestDensityContour
+        a = np.array(inp["array"], dtype=float)
+        k = int(inp["k"])
+        srt = np.sort(a.ravel())[::-1]
+        with warnings.catch_warnings():
+            warnings.simplefilter("ignore")
+            marks, last = HighestDensityContour.cumsum_biggest_until(a.copy(), float(inp["limit"]))
+        marks = np.asarray(marks)
+        return bool(marks.shape == a.shape and int((marks == 1).sum()) == k and float(last) == float(srt[k - 1]))
+    if doc["case"].endswith("/history"):
+        check_history(inp, book)
+    else:
+        check(inp, book)
     return not any(f["case"] == doc["case"] for f in book.failures)
